@@ -31,7 +31,8 @@ for DIFF in "$DIR"/m*.diff; do
   CAUGHT=""
   for P in $PROPS; do
     OUT=$(IVG_REPO="$D/mut" /verif/bin/ivgsa check -property "$P" -verif "$D/v" 2>&1); RC=$?
-    if [ $RC -ne 0 ]; then
+    if [ $RC -ge 2 ]; then echo "    [$P] CHECK-CRASH rc=$RC $(echo "$OUT" | grep -i -m1 'panic\|INFRA' | cut -c1-200)"; fi
+    if [ $RC -eq 1 ]; then
       CAUGHT="$CAUGHT $P"
       echo "    [$P] rc=$RC $(echo "$OUT" | grep -E '^   (VIOLATED|UNDECIDED)' | head -2 | cut -c1-220 | tr '\n' '|')"
     fi
